@@ -10,7 +10,7 @@ MULTILINE|DOTALL - one fixed reference in every cache state.
 import gc
 import re
 
-from sim import corpus, recipes, sched, simre
+from sim import corpus, recipes, sched, simid, simre
 from sim.kernel import EventLog, HarnessError, Violation, digest_of, stream
 
 PROPERTY = "C11"
@@ -68,7 +68,7 @@ def generate(run_seed, tier):
     fault_rate = fl.choice([0.0, 0.0, 0.15, 0.3])
     allow_saturate = wl.random() < (0.08 if tier == "quick" else 0.15)
     ntasks = wl.randint(1, 4)
-    tasks, hcount, saturated = [], 0, False
+    tasks, hcount, saturated, newcount = [], 0, False, 0
     for t in range(ntasks):
         ops = []
         for _ in range(wl.randint(2, 14)):
@@ -87,6 +87,14 @@ def generate(run_seed, tier):
                 elif allow_saturate and not saturated:
                     ops.append({"op": "saturate"})
                     saturated = True
+                elif wl.random() < 0.6 and i in instances:
+                    # the instance dies; a new instance with another pattern is created right after it
+                    ops.append({"op": "drop", "i": i})
+                    nid = "n%d" % newcount
+                    newcount += 1
+                    nname = wl.choice(PATTERNS)
+                    ops.append({"op": "create", "i": nid, "recipe": corpus.recipe_of(nname), "name": nname})
+                    ids.append(nid)
                 else:
                     ops.append({"op": "gc"})
             elif r < cache_rate + iter_rate * (1 - cache_rate):
@@ -125,12 +133,13 @@ def execute(plan, inst, keep_log=False):
     log = EventLog(keep_log)
     world = plan["world"]
     proxy = simre.ReProxy()
+    ids = simid.install(inst)
     pre_mod = inst.pre
     real_re_binding = pre_mod._re
     pre_mod._re = proxy
     stats = {"compiled_path": 0, "module_path": 0, "iter_bound_then_switched": 0, "iter_steps": 0,
              "evictions": 0, "alias_ops": 0, "dup_ops": 0, "alloc_fail_fired": 0, "alloc_fail_raised": 0,
-             "gcp_checked": 0, "purges": 0, "saturates": 0, "match_ops": 0, "live2plus": 0}
+             "drops": 0, "creates": 0, "gcp_checked": 0, "purges": 0, "saturates": 0, "match_ops": 0, "live2plus": 0}
     cover = set()
     try:
         objs, texts_of, meta = {}, {}, {}
@@ -282,6 +291,30 @@ def execute(plan, inst, keep_log=False):
                     if got != reference(texts_of[iid][0], text, "get_matches_and_pos"):
                         stats["gcp_object_differs"] = stats.get("gcp_object_differs", 0) + 1
                 log.add(kind, iid, op["discard"], st)
+            elif kind == "drop":
+                iid = op["i"]
+                if iid in objs and not any(objs.get(h.inst_id) is objs[iid] and not h.done and not h.dead
+                                           for h in handles.values()):
+                    o = objs.pop(iid)
+                    for k in [k for k, q in objs.items() if q is o]:
+                        del objs[k]
+                    del o
+                    gc.collect()
+                    stats["drops"] += 1
+                log.add(kind, iid)
+            elif kind == "create":
+                iid = op["i"]
+                try:
+                    o = recipes.build(op["recipe"], inst.ns)
+                    re.compile(str(o), FLAGS)
+                except Exception as e:                   # noqa: BLE001
+                    log.add("create_failed", iid, type(e).__name__)
+                    return
+                objs[iid] = o
+                texts_of[iid] = (str(o), o.get_pattern())
+                meta[iid] = {"compiled": False, "cache": "warm", "dup": False}
+                stats["creates"] += 1
+                log.add(kind, iid, str(o))
             elif kind == "purge":
                 inst.ns["Pregex"].purge()
                 cache_state[0] = "cold"
@@ -308,7 +341,7 @@ def execute(plan, inst, keep_log=False):
                 log.add(kind, op["h"], iid, tid, op["method"])
             elif kind in ("iter_next", "iter_drain"):
                 h = handles.get(op["h"])
-                if h is None or h.done or h.dead:
+                if h is None or h.done or h.dead or h.inst_id not in objs:
                     log.add("skip", kind)
                     return
                 iid = h.inst_id
@@ -363,6 +396,7 @@ def execute(plan, inst, keep_log=False):
         pre_mod._re = real_re_binding
     stats["steps"], stats["switches"] = s["steps"], s["switches"]
     stats["re_calls"] = proxy.total
+    stats["simid_recycled"] = ids.recycled
     nontrivial = stats["alloc_fail_fired"] > 0 or stats["iter_bound_then_switched"] > 0 or \
         (stats["compiled_path"] > 0 and stats["module_path"] > 0 and s["switches"] > 0) or stats["evictions"] > 0
     return {"digest": log.digest(), "stats": stats, "faults_fired": {"alloc_fail": stats["alloc_fail_fired"],
@@ -422,12 +456,13 @@ EVIDENCE = {
             "taken in a run with task switches, or a cache eviction happened.",
     "measure": "(op kind, compiled? of the target, #live iterators on it {0,1,2+}, binding of the oldest live iterator, "
                "re cache {cold,warm,saturated}, fault pending?, target is alias/duplicate/plain)",
-    "probes": ["compiled_path", "module_path", "iter_bound_then_switched", "evictions", "alias_ops", "dup_ops",
+    "probes": ["drops", "creates", "compiled_path", "module_path", "iter_bound_then_switched", "evictions", "alias_ops", "dup_ops",
                "alloc_fail_raised", "gcp_checked", "live2plus"],
     "fault_kinds": ["alloc_fail", "purge", "saturate"],
     "components": {
         "real": ["all of pregex (from the source tree under test)", "re (matching, compilation, its process-global cache)"],
-        "stub": ["the module object pregex binds as _re is a pass-through proxy that counts calls and can raise MemoryError"],
+        "stub": ["the module object pregex binds as _re is a pass-through proxy that counts calls and can raise MemoryError",
+                 "id() as seen from pregex modules (SimId: the number of a dead object is recycled for the next new one)"],
     },
     "assumptions": [
         "sampling: a clean batch is evidence, not proof",
